@@ -375,6 +375,15 @@ func (p *c01) Generate(r *rand.Rand, t string) []*Case {
 	}
 	out = append(out, p.generatedStream(r, t)...)
 	out = append(out, p.wideStream(r, t)...)
+	// round 6 (c01_pkgname.go), drawn after everything older
+	out = append(out, p.pkgNameStream(r, t)...)
+	// the building style "caller reuses its slices" for every third case of the older streams
+	// (chosen by position, no draw: the programs are the ones of before)
+	for i, c := range out {
+		if i%3 == 1 && c.Stream != "generated-pkgname" {
+			c01ReuseSlices(c)
+		}
+	}
 	return out
 }
 
